@@ -332,7 +332,7 @@ func c38cRunHistory(r *kit.Run, h, api string) (x *c38cRun, setup string) {
 	if err != nil {
 		return nil, "harness: cluster: " + err.Error()
 	}
-	defer c.Close()
+	defer vxClose(c)
 	x = &c38cRun{api: api, r: r, c: c, h: h, lastOp: "strong-read (cluster set-up)"}
 	defer func() {
 		if p := recover(); p != nil {
@@ -360,7 +360,7 @@ func TestVerif_C38_cluster(t *testing.T) {
 		}
 	}
 	depth := r.Pick(2, 3)
-	r.Rule(fmt.Sprintf("every history of length <=%d over {write, strong read, linearizable read, leadership transfer to the next node, crash+restart of a follower, snapshot on the leader, isolate a follower + 3 writes + leader snapshot with log compaction + heal (the follower installs the snapshot), join a non-voter, remove it, barrier} on a fresh live cluster of 3 voting real Stores, each followed by two linearizable reads on the current leader with no intervening write, the reads sent through Store.Query; the histories of length <=%d once more with the reads sent through Store.Request; every linearizable read must return without error within its 5 s timeout. evaluations = histories; transitions = steps and reads; distinct = (API, history, outcome of each linearizable read)", depth, depth-1))
+	r.Rule(fmt.Sprintf("every history of length <=%d over {write, strong read, linearizable read, leadership transfer to the next node, crash+restart of a follower, snapshot on the leader, isolate a follower + 3 writes + leader snapshot with log compaction + heal (the follower installs the snapshot), join a non-voter, remove it, barrier} on a fresh live cluster of 3 voting real Stores, each followed by two linearizable reads on the current leader with no intervening write, the reads sent through Store.Query; the histories of length <=%d once more with the reads sent through Store.Request; plus the directed histories XXX and XXXL (leadership handed round the ring until the first leader leads again) through both; every linearizable read must return without error within its 5 s timeout. evaluations = histories; transitions = steps and reads; distinct = (API, history, outcome of each linearizable read)", depth, depth-1))
 	r.Assume("the interleavings inside hashicorp/raft are uncontrolled; every read is issued with all nodes up, the network healed and one stable leader, and a failure under which the leader or its term changed is repeated instead of judged")
 	r.Assume("all raft timeouts 5 s; a joined non-voter is an address nobody listens on (it never answers; the quorum is 2 of the 3 voters); crashes are Store.Close without snapshot + reopen")
 	type job struct{ h, api string }
@@ -371,6 +371,13 @@ func TestVerif_C38_cluster(t *testing.T) {
 	// the linearizable reads through the unified endpoint (Store.Request duplicates Query's logic)
 	for _, h := range c38cHistories(depth - 1) {
 		hs = append(hs, job{h, "request"})
+	}
+	// directed: three transfers round the ring, so that the FIRST leader leads again in a
+	// later term (a node that served a strong read in an earlier term of its own)
+	for _, h := range []string{"XXX", "XXXL"} {
+		if len(h) > depth {
+			hs = append(hs, job{h, "query"}, job{h, "request"})
+		}
 	}
 	if rp := kit.Replay(); rp != nil {
 		var x struct {
